@@ -435,3 +435,9 @@ mod tests {
         }
     }
 }
+
+// Verification hook (guard: `--cfg ipa_verif`, test builds only). Compiled out unless the guard is set.
+#[cfg(all(test, ipa_verif))]
+mod ipa_verif {
+    include!(concat!(env!("IPA_VERIF_DIR"), "/h1_root.rs"));
+}
